@@ -45,6 +45,25 @@ def termCellH (pix cells : Int) : Nat := termCellWith cellPixelSizeH pix cells
 def protoCellSizeTerm (F : FloatOps) (wPix hPix w h : Nat) (xpix cols ypix rows : Int) : Except Panic (Nat × Nat) :=
   protoCellSize F wPix hPix w h (termCellW xpix cols) (termCellH ypix rows)
 
+/-- The cell-size arithmetic of a `Resize` method as *interpreted* from the regenerated `Gen.kittyResize` /
+    `Gen.sixelResize` (round 3): the quotient, plus one on a remainder when the source has that statement.  A missing
+    quotient statement (or a geometry that does not come from `cellPixelSize`) leaves the field at what it was — the
+    model then reports 0, and `resize_shape` fails. -/
+def resizeCells (rs : ResizeShape) (hasQuot roundUp : Bool) (x c : Nat) : Except Panic Nat :=
+  if rs.geom && hasQuot then cells roundUp x c else .ok 0
+
+def protoCellSizeWith (rs : ResizeShape) (F : FloatOps) (wPix hPix w h cellW cellH : Nat) : Except Panic (Nat × Nat) := do
+  let (pw, ph) ← resizeDims F wPix hPix w h cellW cellH
+  let cw ← resizeCells rs rs.quotW rs.roundUpW pw cellW
+  let ch ← resizeCells rs rs.quotH rs.roundUpH ph cellH
+  return (cw, ch)
+
+/-- `KittyImage.Resize` / `Sixel.Resize` at the terminal's geometry, each with its own regenerated arithmetic. -/
+def kittyCellSizeTerm (F : FloatOps) (wPix hPix w h : Nat) (xpix cols ypix rows : Int) : Except Panic (Nat × Nat) :=
+  protoCellSizeWith kittyResize F wPix hPix w h (termCellW xpix cols) (termCellH ypix rows)
+def sixelCellSizeTerm (F : FloatOps) (wPix hPix w h : Nat) (xpix cols ypix rows : Int) : Except Panic (Nat × Nat) :=
+  protoCellSizeWith sixelResize F wPix hPix w h (termCellW xpix cols) (termCellH ypix rows)
+
 /-! ### Signed boxes -/
 
 def evalFitI (fc : Cmp × Conn × Cmp) (columns : Nat) (w : Int) (lines : Nat) (h : Int) : Bool :=
